@@ -63,7 +63,11 @@ theorem tail_merge (re : C → C) (G : Nat → C) (refRows : List Nat) (s0 : C)
     reference rows in the same order, and the (unconjugated) square sum of the reference
     components does not vanish, then the merged mode shape is the global shape in the scale of
     the FIRST setup, ordered as: reference rows (first setup's order), then each setup's roving
-    rows in ascending channel order, setups in order. -/
+    rows in ascending channel order, setups in order.
+    (One mode.  The whole matrix — every mode, every row, the executed `mergeModeShapes` with its
+    exception checks — is `C02_merge_all` in `Props/C02Matrix.lean`; `hg` is discharged there for
+    real-valued reference components, `C02_merge_all_real`, and shown to be needed for complex
+    ones, `hg_needed` in `Props/C02Driver.lean`.) -/
 theorem C02_merge (re : C → C) (G : Nat → C) (refRows : List Nat) (d0 : SetupD C) (ds : List (SetupD C))
     (h0in : ∀ i ∈ d0.ref, i < d0.rows.length) (h0ref : pick d0.rows d0.ref = refRows)
     (hds : ∀ d ∈ ds, Good re G refRows d0.s d)
@@ -103,9 +107,11 @@ theorem C02_order_parametric {α β} (f : α → β) (xs : List (List α)) (refs
   rovingConcat_map f xs refs
 
 omit [Inhabited C] in
-/-- **C02_stats.** The merged frequency/damping is the arithmetic mean and the reported
-    dispersion `d = σ/mean` (σ the non-negative root of the population variance, an external
-    `sqrt`) satisfies `(d·mean)² = (1/S)·Σ(x−mean)²`. -/
+/-- **C02_stats** (algebraic core, kept under this name for `Props/C02C01.lean`): for ANY number
+    `σ` with `σ² = pvar xs`, `(σ/mean·mean)² = pvar xs`.  `σ` is a hypothesis here; the statement
+    about what `merge_results` computes (the model `mergeResults`: grouping, stacking, mean,
+    `sqrt(pvar)/mean` with `sqrt` under its contract) is `C02_stats_results` / `C02_stats_group`
+    in `Props/C02Results.lean`. -/
 theorem C02_stats (xs : List C) (sigma : C) (hs : sigma * sigma = pvar xs) (hm : mean xs ≠ 0) :
     (sigma / mean xs * mean xs) * (sigma / mean xs * mean xs) = pvar xs := by
   have : sigma / mean xs * mean xs = sigma := by field_simp
